@@ -219,6 +219,10 @@ class FileCtx:
                 n += 1
         return n
 
+    def guard_file(self, why):
+        """hash guard over the whole (comment-stripped, whitespace-normalised) file"""
+        self.unit.entries.append(Guard(self.rel, None, None, None, why))
+
     def guard(self, fn, expected, impl=None, why='', block=None):
         """text guard: a function that is NOT verified but whose (comment-stripped, whitespace-
         normalised) source text a lemma restates; if it changes the unit is undecided."""
@@ -351,6 +355,18 @@ class Unit:
         for e in self.entries:
             if isinstance(e, Raw):
                 emit_text(e.text, None)
+            elif isinstance(e, Guard) and e.fn is None:
+                # whole-file hash guard (generated code the unit sees only through opaque accessors)
+                import hashlib
+                rf = self._rf(e.file)
+                hv = hashlib.sha1(normalise_code(rf.src).encode()).hexdigest()[:16]
+                key = '%s::file::%s' % (self.name, e.file)
+                self.trusted_seen = getattr(self, 'trusted_seen', {})
+                self.trusted_seen[key] = hv
+                exp = _trusted_hashes().get(key)
+                if exp is not None and exp != hv:
+                    raise Undecided('the text of %s changed, but the unit sees it only through opaque accessors (%s): no verdict' % (e.file, e.why))
+                self.guards_ok.append('%s:*' % e.file)
             elif isinstance(e, Guard):
                 rf = self._rf(e.file)
                 try:
